@@ -273,7 +273,7 @@ func c06(c *core.Ctx) {
 	})
 	c.MarkExhaustive("ports")
 	// (1b) extra random transaction ids / addresses
-	c.Section("addresses-random", c.N(2000, 200000), func(_ int64, r *gen.Rand) {
+	c.Section("addresses-random", c.N(2000, 3000000), func(_ int64, r *gen.Rand) {
 		for _, k := range kinds {
 			c06Addr(c, r, k, r.Intn(65536), r.Intn(4))
 		}
@@ -379,7 +379,7 @@ func c06(c *core.Ctx) {
 	})
 	c.MarkExhaustive("error-codes")
 	// (4) UNKNOWN-ATTRIBUTES: lists of 0..64 types
-	c.Section("unknown-attributes", c.N(65*8, 65*200), func(i int64, r *gen.Rand) {
+	c.Section("unknown-attributes", c.N(65*8, 65*5000), func(i int64, r *gen.Rand) {
 		c.Eval(1)
 		n := int(i % 65)
 		types := make([]uint16, n)
